@@ -129,6 +129,7 @@ func (r QRes) Line(q string) string {
 // receives the new stream through a direct st.Unmarshal - the other calls load into a fresh
 // instance. A loaded trie must answer the same either way (C05: no residue).
 var reloadCount int
+var reloadUsedHung bool
 var reloadPrev = map[string][]byte{}
 
 func touchAll(st *trie.SlimTrie) {
@@ -152,7 +153,7 @@ func reload(st *trie.SlimTrie, spec *EncSpec) (*trie.SlimTrie, []byte, error) {
 	var buf []byte
 	var err error
 	reloadCount++
-	used := reloadCount%2 == 0
+	used := reloadCount%2 == 0 && !reloadUsedHung
 	viaProto := reloadCount%4 >= 2 // load through proto.Unmarshal(buf, st): Reset() first, then st.Unmarshal
 	done := make(chan struct{})
 	go func() {
@@ -202,6 +203,9 @@ func reload(st *trie.SlimTrie, spec *EncSpec) (*trie.SlimTrie, []byte, error) {
 	select {
 	case <-done:
 	case <-time.After(60 * time.Second):
+		if used {
+			reloadUsedHung = true // reported once by the caller; do not wait a minute on every later case
+		}
 		return nil, buf, fmt.Errorf("TIMEOUT: Marshal/Unmarshal (into a used instance: %v) did not return", used)
 	}
 	if err == nil && buf != nil {
